@@ -61,6 +61,7 @@ func (s *verifSink) Write(p []byte) (int, error) {
 			return 0, verifErrInjected
 		}
 	}
+	verifAuditObserveWrite()
 	s.writes = append(s.writes, p)
 	ghostLog("sink.write")
 	return len(p), nil
@@ -157,6 +158,7 @@ func verifAtomicWrite(filename string, data []byte, perm os.FileMode) error {
 		ghostLog("disk.write.failed")
 		return verifErrInjected
 	}
+	verifAuditObserveSave()
 	verifDisk = data
 	verifDiskWrites++
 	ghostLog("disk.write")
